@@ -31,6 +31,10 @@ def exec_null(job):
     from bct.utils import miscellaneous_utilities as mu
     fn = job["fn"]
     W = np.array(job["W"], dtype=float)
+    if job.get("dtype"):                     # signed integer types / Fortran order; values unchanged
+        W = W.astype({"int": int}.get(job["dtype"], job["dtype"]))
+    if job.get("layout") == "F":
+        W = np.asfortranarray(W)
     n = len(W)
     rec = dict(fn=fn, n=n, dir=int(fn == "null_model_dir_sign"), W=encode.mat_int(W), raised="",
                malformed="", W0=[], corr=[], corr2=[], pattern=[])
@@ -99,7 +103,9 @@ def run(ctx):
         fn = ["randmio_und_signed", "randmio_dir_signed"][t % 2]
         A = signed_input(rng, rng.randint(4, 8), und=(t % 2 == 0), dens=rng.choice([0.4, 0.7, 1.0]))
         jobs.append(dict(fn=fn, prop=PROP, R0=A.tolist(), itr=rng.choice([0, 0.2, 1, 2]),
-                         seed=rng.randrange(2 ** 31), src="random"))
+                         seed=rng.randrange(2 ** 31), src="random",
+                         dtype=rng.choice([None, None, "int", "int32"]),
+                         layout=rng.choice([None, None, "F", "view"])))
     nr = len(jobs)
     for t in range(300 if ctx.quick else 5000):
         fn = ["null_model_und_sign", "null_model_dir_sign"][t % 2]
@@ -113,7 +119,8 @@ def run(ctx):
         if t % 7 == 0:
             np.fill_diagonal(A, rng.choice([1, -1, 2]))    # diagonal is documented to be cleared
         jobs.append(dict(fn=fn, W=A.tolist(), bin_swaps=rng.choice([0, 1, 5]),
-                         wei_freq=rng.choice([0, 0.1, 0.5, 1]), seed=rng.randrange(2 ** 31), src="random"))
+                         wei_freq=rng.choice([0, 0.1, 0.25, 0.5, 1]), seed=rng.randrange(2 ** 31), src="random",
+                         dtype=rng.choice([None, None, "int", "int32"]), layout=rng.choice([None, None, "F"])))
     recs = pool.run_jobs(__name__, jobs, limit=15.0)
     v1 = ctx.validate("Trace_Rewire.tla", "Trace_Rewire.cfg", recs[:nr], chunk=1500)
     v2 = ctx.validate("Trace_NullSign.tla", "Trace_NullSign.cfg", recs[nr:])
